@@ -9,7 +9,6 @@ Line-protocol handlers for property C05.
   SITE   ::= (BOOL TARGET)               BOOL = a local `require` is in scope at the site
   TARGET ::= excluded | (notfound <path>) | (file <path>)
   dec    ::= - | <name>                  err ::= (notfound p) (cyclic p*) (missing p) (parse p) (badext p) (noreturn p) (manyreturn p) fuel
-* `c05.h5 <graph>` → `true|false`: hypothesis H5 (no required module shadows `require` at a call site)
 * `c05.assemble <M> ((<name> <block>)*) <block>` → the bundled block (`assemble`)
 * `c05.names <k>` → the first k module names
 -/
@@ -85,10 +84,6 @@ def handle (op : String) (args : List String) : String :=
     match graphOf? g, sites.mapM siteOf? with
     | some G, some ss => (bundleToSexp (inlineAll G ss)).toString
     | _, _ => "bad-request"
-  | "h5", some [g] =>
-    match graphOf? g with
-    | some G => toString (H5 G)
-    | none => "bad-request"
   | "assemble", some [m, .list mods, entry] =>
     let mods? := mods.mapM fun e =>
       match e with
